@@ -99,3 +99,25 @@ Example C04_ex_all_orientations :
             [PFillContigGen ex_r 14; PFillContigGen ex_r 8; PFillContigGen {| rx := 1; ry := 1; rw := 3; rh := 2 |} 5])
   = 11%nat.
 Proof. vm_compute. split; reflexivity. Qed.
+
+(* ---- the 16-bit-pointer variants of the private take / nth helpers (a separate code path that the test
+   host never compiles; run differentially through source extraction in the harness) ---- *)
+Require Import Model.Ptr16 Proofs.Ptr16P.
+
+(* take_u32 (take_while with a counter) yields exactly the first `max` items, in Debug and Release, for
+   every stream of fewer than 2^32 items; it consumes one item more than Iterator::take would (the first
+   item that fails the test), which no caller can observe: fill_contiguous drops the iterator *)
+Theorem C04_ptr16_take : forall md l max,
+  0 <= max -> Z.of_nat (length l) < 2 ^ 32 ->
+  take_u32_16 md l max = Ok (firstn (Z.to_nat max) l, skipn (S (Z.to_nat max)) l).
+Proof. exact take_u32_16_spec. Qed.
+Theorem C04_ptr16_take_same_items : forall md l max,
+  0 <= max -> Z.of_nat (length l) < 2 ^ 32 ->
+  exists left, take_u32_16 md l max = Ok (fst (take_u32_host l max), left).
+Proof. exact take_u32_16_same_items. Qed.
+(* nth_u32 (a counted loop of next()) is Iterator::nth, including what it leaves in the iterator *)
+Theorem C04_ptr16_nth : forall l n, 0 <= n -> nth_u32_16 l n = nth_u32_host l n.
+Proof. exact nth_u32_16_spec. Qed.
+Example C04_ex_ptr16 : take_u32_16 Debug [1;2;3;4;5] 2 = Ok ([1;2], [4;5]) /\ nth_u32_16 [1;2;3;4;5] 2 = (Some 3, [4;5])
+  /\ take_u32_16 Release [1;2] 5 = Ok ([1;2], []) /\ nth_u32_16 [1;2] 2 = (None, []).
+Proof. vm_compute. auto. Qed.
